@@ -756,3 +756,200 @@ Proof.
       apply act_commit. apply act_ret.
   - apply act_commit. apply act_write; [right; reflexivity|apply Hnr; auto|]. apply act_ret.
 Qed.
+
+(* ------------------------------------------------------------------ the other direction: the runtime does not
+   panic where the specification is defined *)
+
+Definition grows (s s' : st) : Prop := forall y, sres s y <> None -> sres s' y <> None.
+
+Lemma grows_refl s : grows s s. Proof. intros y H; exact H. Qed.
+Lemma grows_trans a b c : grows a b -> grows b c -> grows a c.
+Proof. intros H1 H2 y H. apply H2, H1, H. Qed.
+
+Lemma iread_grows : forall s h s' v, iread s h = Some (s', v) -> grows s s'.
+Proof. intros s h s' v H y Hy. destruct (iread_spec _ _ _ _ H) as (_ & Hr & _). now rewrite Hr. Qed.
+
+Lemma iwrite_grows : forall s h v s', iwrite s h v = Some s' -> grows s s'.
+Proof. intros s h v s' H. destruct (iwrite_spec _ _ _ _ H) as (_ & _ & _ & _ & Hk & _). exact Hk. Qed.
+
+Lemma ensure_grows : forall s x, grows s (ensure s x).
+Proof. intros s x. destruct (ensure_spec s x) as (_ & _ & _ & _ & Hk). exact Hk. Qed.
+
+Lemma iread_total : forall s h, sres s h <> None -> exists s' v, iread s h = Some (s', v).
+Proof. intros s h H. unfold iread. destruct (sres s h); [eauto|contradiction]. Qed.
+
+Lemma iwrite_total : forall s h v, sres s h <> None -> exists s', iwrite s h v = Some s'.
+Proof. intros s h v H. unfold iwrite. destruct (sres s h); [eauto|contradiction]. Qed.
+
+Lemma save_bind_total : forall vars args s frame,
+  exists s2 frame2, save_bind s vars args frame = Some (s2, frame2) /\ grows s s2 /\
+                    (forall x, In x vars -> sres s2 x <> None).
+Proof.
+  induction vars as [|x r IH]; intros args s frame; cbn.
+  - exists s, frame. split; auto. split; [apply grows_refl|intros x []].
+  - destruct (ensure_spec s x) as (_ & _ & _ & He & Hk).
+    destruct (iread_total (ensure s x) x He) as (s1 & v & Er). rewrite Er.
+    pose proof (iread_grows _ _ _ _ Er) as G1.
+    destruct args as [|a args].
+    + destruct (IH [] s1 (frame_set frame (VS x) v)) as (s2 & f2 & E & G & Hx). rewrite E.
+      exists s2, f2. split; auto. split.
+      * eapply grows_trans; [apply ensure_grows|]. eapply grows_trans; eauto.
+      * intros y [<-|Hy]; auto; try (apply G, G1, He).
+    + destruct (iwrite_total s1 x a (G1 x He)) as (s3 & Ew). rewrite Ew.
+      pose proof (iwrite_grows _ _ _ _ Ew) as G3.
+      destruct (IH args s3 (frame_set frame (VS x) v)) as (s2 & f2 & E & G & Hx). rewrite E.
+      exists s2, f2. split; auto. split.
+      * eapply grows_trans; [apply ensure_grows|]. eapply grows_trans; [exact G1|].
+        eapply grows_trans; eauto.
+      * intros y [<-|Hy]; auto; try (apply G, G3, G1, He).
+Qed.
+
+Lemma write_all_total : forall ws s, (forall x v, In (x, v) ws -> sres s x <> None) ->
+  exists s', write_all s ws = Some s' /\ grows s s'.
+Proof.
+  induction ws as [|[x v] r IH]; intros s H; cbn.
+  - exists s. split; auto. apply grows_refl.
+  - destruct (iwrite_total s x v (H x v (or_introl eq_refl))) as (s1 & Ew). rewrite Ew.
+    pose proof (iwrite_grows _ _ _ _ Ew) as G.
+    destruct (IH s1) as (s' & E & G').
+    { intros y w Hin. apply G. eapply H. right; eauto. }
+    exists s'. split; auto. eapply grows_trans; eauto.
+Qed.
+
+Lemma call_defined_lemma : forall t s g p ret args g',
+  wf_table t -> Rel s g -> call_spec t g p ret args = Some g' ->
+  exists s', call_impl t s p ret args = Some s'.
+Proof.
+  intros t s g pn ret args g' Hwf (Rv & Rs & Rp & Epc & Est & Rw) H.
+  unfold call_spec in H. unfold call_impl.
+  destruct (find_proc (t_procs t) pn) as [p|] eqn:Ep; [|discriminate].
+  destruct (Hwf pn p Ep) as (Hnd & Hres & Hpre).
+  destruct (iread_total s ".stack" Est) as (s1 & sv & Er). rewrite Er.
+  destruct (iread_spec _ _ _ _ Er) as (Hsv & Hres1 & _).
+  destruct (Nat.ltb (List.length (p_vars p)) (List.length args)); [discriminate|].
+  destruct (has_label t (p_label p)) eqn:El; [|discriminate].
+  destruct (save_bind_total (p_vars p) args s1 [(VS ".pc", VS ret)]) as (s2 & fr & Esb & G2 & Hx). rewrite Esb.
+  rewrite Hsv, Rs.
+  assert (Hst2 : sres s2 ".stack" <> None) by (apply G2; rewrite Hres1; auto).
+  destruct (iwrite_total s2 ".stack" (VT (VR fr :: map VR (v_stack g))) Hst2) as (s3 & Ew). rewrite Ew.
+  pose proof (iwrite_grows _ _ _ _ Ew) as G3.
+  destruct (write_all_total (p_pre p) s3) as (s4 & Ea & G4).
+  { intros x v Hin. apply G3, Hx. eapply Hpre; eauto. }
+  rewrite Ea. unfold goto_impl. rewrite El.
+  apply iwrite_total. apply G4, G3, G2. rewrite Hres1. auto.
+Qed.
+
+(* every variable saved in a frame exists in the store (Call created it) *)
+Definition live (s : st) (g : sp) : Prop :=
+  forall fr, In fr (v_stack g) -> forall x v, In (VS x, v) fr -> x <> ".pc" -> sres s x <> None.
+
+Lemma restore_all_total : forall vars (f : string -> val) s,
+  (forall x, In x vars -> sres s x <> None) ->
+  exists s', restore_all s (map (fun x => (VS x, f x)) vars) = Some s'.
+Proof.
+  induction vars as [|x r IH]; intros f s H; cbn.
+  - eauto.
+  - destruct (iwrite_total s x (f x) (H x (or_introl eq_refl))) as (s1 & Ew). rewrite Ew.
+    apply IH. intros y Hy. apply (iwrite_grows _ _ _ _ Ew). apply H. now right.
+Qed.
+
+Lemma return_defined_lemma : forall s g g',
+  Rel s g -> live s g -> return_spec g = Some g' -> exists s', return_impl s = Some s'.
+Proof.
+  intros s g g' (Rv & Rs & Rp & Epc & Est & Rw) HL H.
+  unfold return_spec in H. unfold return_impl.
+  destruct (iread_total s ".stack" Est) as (s1 & sv & Er). rewrite Er.
+  destruct (iread_spec _ _ _ _ Er) as (Hsv & Hres1 & _). rewrite Hsv, Rs.
+  destruct (v_stack g) as [|fr rest] eqn:Eg; [discriminate|]. cbn [map].
+  inversion Rw as [|? ? Hwf Hrest]; subst. destruct Hwf as (ret & vars & f & -> & Hres).
+  assert (Hst1 : sres s1 ".stack" <> None) by (rewrite Hres1; auto).
+  destruct (iwrite_total s1 ".stack" (VT (map VR rest)) Hst1) as (s2 & Ew). rewrite Ew.
+  pose proof (iwrite_grows _ _ _ _ Ew) as G2.
+  unfold frame_of. cbn [restore_all].
+  assert (Hpc2 : sres s2 ".pc" <> None) by (apply G2; rewrite Hres1; auto).
+  destruct (iwrite_total s2 ".pc" ret Hpc2) as (s3 & Ew3). rewrite Ew3.
+  apply restore_all_total. intros x Hx. apply (iwrite_grows _ _ _ _ Ew3), G2. rewrite Hres1.
+  assert (Hin : In (frame_of ret vars f) (v_stack g)) by (rewrite Eg; now left).
+  apply (HL _ Hin x (f x)).
+  - unfold frame_of. right. apply in_map_iff. exists x. split; eauto.
+  - intros ->. apply (Hres ".pc" Hx). apply reserved_pc.
+Qed.
+
+Lemma save_bind_grows : forall vars args s frame s2 frame2,
+  save_bind s vars args frame = Some (s2, frame2) -> grows s s2 /\ (forall x, In x vars -> sres s2 x <> None).
+Proof.
+  intros vars args s frame s2 frame2 H.
+  destruct (save_bind_total vars args s frame) as (s2' & f2' & E & G & Hx).
+  rewrite H in E. inversion E; subst. auto.
+Qed.
+
+Lemma write_all_grows : forall ws s s', write_all s ws = Some s' -> grows s s'.
+Proof.
+  induction ws as [|[x v] r IH]; intros s s' H; cbn in H.
+  - inversion H; subst. apply grows_refl.
+  - destruct (iwrite s x v) as [s1|] eqn:Ew; [|discriminate].
+    eapply grows_trans; [eapply iwrite_grows; eauto|eauto].
+Qed.
+
+Lemma restore_all_grows : forall f s s', restore_all s f = Some s' -> grows s s'.
+Proof.
+  induction f as [|[k v] r IH]; intros s s' H; cbn in H.
+  - inversion H; subst. apply grows_refl.
+  - destruct k; try discriminate. destruct (iwrite s s0 v) as [s1|] eqn:Ew; [|discriminate].
+    eapply grows_trans; [eapply iwrite_grows; eauto|eauto].
+Qed.
+
+Lemma call_grows : forall t s p r a s', call_impl t s p r a = Some s' ->
+  grows s s' /\ forall pr, find_proc (t_procs t) p = Some pr -> forall x, In x (p_vars pr) -> sres s' x <> None.
+Proof.
+  intros t s p r a s' H. unfold call_impl in H.
+  destruct (find_proc (t_procs t) p) as [pr|]; [|discriminate].
+  destruct (iread s ".stack") as [[s1 sv]|] eqn:Er; [|discriminate].
+  destruct (Nat.ltb _ _); [discriminate|].
+  destruct (save_bind s1 (p_vars pr) a _) as [[s2 fr]|] eqn:Es; [|discriminate].
+  destruct (save_bind_grows _ _ _ _ _ _ Es) as [G2 Hx].
+  destruct sv; try discriminate.
+  destruct (iwrite s2 ".stack" _) as [s3|] eqn:Ew; [|discriminate].
+  destruct (write_all s3 (p_pre pr)) as [s4|] eqn:Ea; [|discriminate].
+  unfold goto_impl in H. destruct (has_label t (p_label pr)); [|discriminate].
+  assert (G : grows s2 s').
+  { eapply grows_trans; [eapply iwrite_grows; eauto|].
+    eapply grows_trans; [eapply write_all_grows; eauto|eapply iwrite_grows; eauto]. }
+  split.
+  - eapply grows_trans; [eapply iread_grows; eauto|]. eapply grows_trans; eauto.
+  - intros pr' E x Hin. inversion E; subst pr'. apply G, Hx, Hin.
+Qed.
+
+Lemma return_grows : forall s s', return_impl s = Some s' -> grows s s'.
+Proof.
+  intros s s' H. unfold return_impl in H.
+  destruct (iread s ".stack") as [[s1 sv]|] eqn:Er; [|discriminate].
+  destruct sv as [| | | |[|[| | | | |f] rest]|]; try discriminate.
+  destruct (iwrite s1 ".stack" (VT rest)) as [s2|] eqn:Ew; [|discriminate].
+  eapply grows_trans; [eapply iread_grows; eauto|].
+  eapply grows_trans; [eapply iwrite_grows; eauto|eapply restore_all_grows; eauto].
+Qed.
+
+Lemma live_grows : forall s s' g, grows s s' -> live s g -> live s' g.
+Proof. intros s s' g G L fr Hin x v Hx Hn. apply G. eapply L; eauto. Qed.
+
+Lemma call_live : forall t s g p r a s' g',
+  live s g -> call_impl t s p r a = Some s' -> call_spec t g p r a = Some g' -> live s' g'.
+Proof.
+  intros t s g p r a s' g' L Hi Hs. destruct (call_grows _ _ _ _ _ _ Hi) as [G Hx].
+  unfold call_spec in Hs. destruct (find_proc (t_procs t) p) as [pr|] eqn:Ep; [|discriminate].
+  destruct (Nat.ltb _ _); [discriminate|]. destruct (has_label t (p_label pr)); [|discriminate].
+  inversion Hs; subst; clear Hs. intros fr [<-|Hin] x v Hv Hn.
+  - destruct Hv as [E|Hv]; [inversion E; subst; contradiction|].
+    apply in_map_iff in Hv as (y & E & Hy). inversion E; subst. eapply Hx; eauto.
+  - apply G. eapply L; eauto.
+Qed.
+
+Lemma return_live : forall s g s' g',
+  live s g -> return_impl s = Some s' -> return_spec g = Some g' -> live s' g'.
+Proof.
+  intros s g s' g' L Hi Hs. pose proof (return_grows _ _ Hi) as G.
+  unfold return_spec in Hs. destruct (v_stack g) as [|fr rest] eqn:Eg; [discriminate|].
+  destruct (lookup (VS ".pc") fr) as [l|]; [|discriminate]. inversion Hs; subst; clear Hs.
+  intros fr' Hin x w Hv Hn. apply G. eapply (L fr'); eauto. rewrite Eg. now right.
+Qed.
